@@ -291,6 +291,11 @@ func rulePanConvert(c *Ctx, r *R) {
 			}
 			fl, ok := ds.Call.Fun.(*ast.FuncLit)
 			if !ok {
+				// defer h(&err) / defer x.h(&err) with h a declared function that recovers
+				if why, isGuard := c.declaredRecoverGuard(ds, errObjs); isGuard {
+					n++
+					r.check(why == "", "convert "+name, c.Pos(ds), "the deferred handler stores the recovered value through the pointer to the named error result", name+"'s recover guard: "+why)
+				}
 				continue
 			}
 			recovers := false
@@ -477,4 +482,76 @@ func neverNil(v ssa.Value, depth int) bool {
 		return rets > 0
 	}
 	return false
+}
+
+// declaredRecoverGuard: `defer h(.., &err, ..)` where h is a declared function whose body
+// calls recover(): every path of h with a recovered value stores a non-nil value through the
+// parameter that receives &err (err a named error result of the deferring function).
+func (c *Ctx) declaredRecoverGuard(ds *ast.DeferStmt, errObjs []types.Object) (string, bool) {
+	h := c.DeclOf(c.Callee(ds.Call))
+	if h == nil || h.Body == nil {
+		return "", false
+	}
+	recovers := false
+	ast.Inspect(h.Body, func(k ast.Node) bool {
+		if call, ok := k.(*ast.CallExpr); ok && c.CalleeName(call) == "builtin.recover" {
+			recovers = true
+		}
+		return true
+	})
+	if !recovers {
+		return "", false
+	}
+	// which parameter receives the address of a named error result
+	var params []types.Object
+	for _, f := range h.Type.Params.List {
+		for _, nm := range f.Names {
+			params = append(params, c.Info.Defs[nm])
+		}
+	}
+	var target types.Object
+	for i, a := range ds.Call.Args {
+		if u, ok := unparen(a).(*ast.UnaryExpr); ok && u.Op == token.AND {
+			if id, ok := unparen(u.X).(*ast.Ident); ok {
+				for _, eo := range errObjs {
+					if c.Obj(id) == eo && i < len(params) {
+						target = params[i]
+					}
+				}
+			}
+		}
+	}
+	if target == nil {
+		return "the deferred handler " + h.Name.Name + " recovers a panic but is not given the address of a named error result: the panic is swallowed", true
+	}
+	in := newInterp(c)
+	in.NoLin = true
+	in.Inline = c.isNewHelper
+	paths := in.ExecFunc(h, nil)
+	if len(paths) == 0 || in.Overflow {
+		return "the deferred handler " + h.Name.Name + " could not be enumerated", true
+	}
+	saw := false
+	for _, p := range paths {
+		cs := condStrings(p)
+		if !strings.Contains(cs, "builtin.recover() != nil") {
+			if strings.Contains(cs, "builtin.recover() == nil") {
+				continue
+			}
+		}
+		saw = true
+		stored := false
+		for _, e := range p.Eff {
+			if e.Kind == "store" && e.Target != nil && e.Target.Op == "deref" && len(e.Target.Args) == 1 && e.Target.Args[0].Op == "var" && e.Target.Args[0].Name == target.Name() && e.Value != nil && e.Value.Op != "nil" {
+				stored = true
+			}
+		}
+		if !stored {
+			return "the deferred handler " + h.Name.Name + " has a path (" + cs + ") on which a value was recovered but nothing is stored through " + target.Name() + ": the panic is swallowed and the caller receives a nil error", true
+		}
+	}
+	if !saw {
+		return "no path of " + h.Name.Name + " with a non-nil recovered value was found", true
+	}
+	return "", true
 }
